@@ -1,1 +1,175 @@
-From RV Require Import Collection.Model.
+(* C19 - an RDF Collection behaves like the Python list it represents.
+   Property theorems only; proofs are in Collection/Proofs.v (histories on a
+   well-formed list), Collection/Reads.v (reads on arbitrary graphs) and
+   Collection/Historical.v (the code before the repairs).
+   The model is rdflib/collection.py after the repairs 6f3b46c5, 2134a9f3,
+   96e75001, 6814bca0.  One defect remains (finding F3d, narrowed): item
+   assignment at index = len(c) - [kf_op xs o] is 2 exactly for [OSet i v] with
+   i = length xs and 0 for every other operation. *)
+From RV Require Import Collection.Model Collection.Proofs Collection.Reads Collection.Historical.
+
+(* [Inv s xs]: the graph of state s is duplicate-free and its rdf:first/rdf:rest
+   triples are exactly a chain HEAD -> ... -> rdf:nil carrying xs (no triple at
+   all when xs = []), cells pairwise distinct, none of them rdf:nil, all below
+   the counter that stands for BNode(). *)
+
+(* the initial state of every case in scope satisfies the invariant *)
+Theorem C19_init_represents : forall c, wfb c = true -> Inv (init_st c) (c_init c).
+Proof. exact init_Inv. Qed.
+Print Assumptions C19_init_represents.
+
+(* refinement, one operation: every operation - any index, negative ones,
+   index = len(c) for reads and deletes, del c[0], += [], on any list including
+   the empty one, any members - except c[len(c)] = v returns what the Python
+   list returns (index() of an absent item: raises) and leaves a state that
+   represents the list's new value, whose chain is well-formed and whose
+   iteration yields exactly the list *)
+Theorem C19_refines : forall s xs o, Inv s xs -> kf_op xs o = 0%N ->
+  let '(s', r) := c_step HEAD s o in
+  let '(xs', e) := lstep xs o in
+  Inv s' xs' /\ WF (gr s') HEAD xs' /\ c_iter (gr s') HEAD = RList xs' /\
+  (match o, e with OIndex _, RExc _ => is_exc r = true | _, _ => r = e end).
+Proof. exact refines_step. Qed.
+Print Assumptions C19_refines.
+
+(* the trigger hypothesis of C19_refines, spelled out *)
+Theorem C19_trigger_is_setitem_at_len : forall xs o,
+  kf_op xs o <> 0%N <-> exists v, o = OSet (Z.of_nat (length xs)) v.
+Proof.
+  intros xs o. destruct o; simpl; try (split; [congruence|intros [? H]; discriminate]).
+  destruct (Z.eqb_spec i (Z.of_nat (length xs))) as [->|Hne].
+  - split; [eauto|discriminate].
+  - split; [congruence|]. intros [v' H]. inversion H. congruence.
+Qed.
+Print Assumptions C19_trigger_is_setitem_at_len.
+
+(* deletion and indexing need no hypothesis at all *)
+Theorem C19_getitem_refines : forall s xs i, Inv s xs ->
+  c_getitem (gr s) HEAD i = snd (lstep xs (OGet i)).
+Proof. exact step_get. Qed.
+Print Assumptions C19_getitem_refines.
+
+Theorem C19_delitem_refines : forall s xs i, Inv s xs ->
+  Inv {| gr := fst (c_delitem (gr s) HEAD i); fresh := fresh s |} (fst (lstep xs (ODel i)))
+  /\ snd (c_delitem (gr s) HEAD i) = snd (lstep xs (ODel i)).
+Proof. exact step_del. Qed.
+Print Assumptions C19_delitem_refines.
+
+(* refinement, whole histories, in the form the conformance check evaluates *)
+Theorem C19_spec_ok_model : forall c, wfb c = true -> kf c = 0%N -> spec_ok c (model_obs c) = true.
+Proof. exact spec_ok_model. Qed.
+Print Assumptions C19_spec_ok_model.
+
+(* what the checker's verdict on one snapshot means *)
+Theorem C19_snap_ok_reading : forall head xs sn, snap_ok head xs sn = true ->
+  s_items sn = RList xs /\ s_len sn = RNat (N.of_nat (length xs)) /\
+  s_gets sn = map RTerm xs /\ WF (s_triples sn) head xs.
+Proof. exact snap_ok_reading. Qed.
+Print Assumptions C19_snap_ok_reading.
+
+Theorem C19_wf_check_reading : forall head xs T, wf_check head xs T = true ->
+  match xs with
+  | [] => forall t, In t T -> is_fr t = false
+  | _ => exists cs, length cs = length xs /\ NoDup cs /\ ~ In NIL cs /\ hd NIL cs = head /\
+                    seteq (filter is_fr T) (chainT (combine cs xs) NIL)
+  end.
+Proof. exact wf_check_sound. Qed.
+Print Assumptions C19_wf_check_reading.
+
+(* IndexError exactly where the list raises it: every index outside
+   -len(c) .. len(c)-1, negative ones included; nothing is changed.  For item
+   assignment the single index len(c) is excepted (F3d). *)
+Theorem C19_index_error : forall s xs i, Inv s xs -> norm_index (length xs) i = None ->
+  c_getitem (gr s) HEAD i = RExc IndexError /\
+  c_delitem (gr s) HEAD i = (gr s, RExc IndexError) /\
+  (i <> Z.of_nat (length xs) -> forall v, c_setitem (gr s) HEAD i v = (gr s, RExc IndexError)).
+Proof. exact index_error. Qed.
+Print Assumptions C19_index_error.
+
+(* F3d, what is left of it: c[len(c)] = v raises nothing and writes (rdf:nil rdf:first v) *)
+Theorem C19_setitem_len_refuted : exists c,
+  wfb c = true /\ kf c = 2%N /\ spec_ok c (model_obs c) = false /\
+  exists sn, nth_error (model_obs c) 0 = Some sn /\ s_res sn = RNone /\
+             memb triple_eqb (NIL, FIRST, 5%N) (s_triples sn) = true.
+Proof.
+  exists {| c_init := [1; 6]%N; c_noise := []; c_ops := [OSet 2 5%N] |}.
+  repeat split; try (vm_compute; reflexivity). eexists. repeat split; vm_compute; reflexivity.
+Qed.
+Print Assumptions C19_setitem_len_refuted.
+
+(* ---- reads on arbitrary graphs: cyclic, broken, forked chains ---- *)
+
+(* Graph.items and (since 6f3b46c5) Collection.index carry a visited set:
+   iteration, len, membership, indexing and index() terminate on EVERY graph
+   (the model never runs out of its length g + 3 units of fuel; pigeonhole) *)
+Theorem C19_reads_terminate : forall g head i v,
+  c_iter g head <> RHang /\ c_len g head <> RHang /\ c_contains g head v <> RHang /\
+  c_getitem g head i <> RHang /\ c_index g head v <> RHang.
+Proof.
+  intros. repeat split;
+    [apply iter_total|apply len_total|apply contains_total|apply getitem_total|apply index_total].
+Qed.
+Print Assumptions C19_reads_terminate.
+
+(* on a chain whose walk (first rest link, stopping at a falsy node like
+   Graph.items) revisits a node, list(c) and len(c) raise ValueError *)
+Theorem C19_cyclic_reads_raise : forall g head, cyclic_iter g head = true ->
+  c_iter g head = RExc ValueError /\ c_len g head = RExc ValueError.
+Proof. exact cyclic_reads_raise. Qed.
+Print Assumptions C19_cyclic_reads_raise.
+
+(* index() of an item that is no rdf:first object of the graph raises, on every
+   graph - looping chains included *)
+Theorem C19_index_absent_raises : forall g head v,
+  g_has (None, Some FIRST, Some v) g = false -> is_exc (c_index g head v) = true.
+Proof. exact index_absent_raises. Qed.
+Print Assumptions C19_index_absent_raises.
+
+(* what the `collreads` suite evaluates: no read hangs, list(c)/len(c) raise on
+   a cyclic chain - for every graph and every sequence of reads *)
+Theorem C19_reads_spec_ok_model : forall c, r_wfb c = true -> r_spec c (r_model c) = true.
+Proof. exact r_spec_model. Qed.
+Print Assumptions C19_reads_spec_ok_model.
+
+(* ---- the code before the repairs did not have the property ---- *)
+
+(* F3b (fixed 96e75001): del c[0] on [1, 6] left a head cell without rdf:first *)
+Theorem C19_prefix_del_head_refuted :
+  let g' := fst (old_delitem (graph_of [1; 6]%N) HEAD 0) in
+  snd (old_delitem (graph_of [1; 6]%N) HEAD 0) = RNone /\ wf_check HEAD [6%N] g' = false
+  /\ old_getitem g' HEAD 0 = RExc KeyError.
+Proof. exact old_del_head. Qed.
+Print Assumptions C19_prefix_del_head_refuted.
+
+(* F3d reads/deletes and F3e (fixed 2134a9f3) *)
+Theorem C19_prefix_indices_refuted :
+  old_getitem (graph_of [1; 6]%N) HEAD 2 = RExc KeyError /\
+  old_getitem (graph_of [1; 6; 5]%N) HEAD (-1) = RTerm 1%N /\
+  memb triple_eqb (HEAD, REST, HEAD) (fst (old_delitem (graph_of [1; 6; 5]%N) HEAD (-1))) = true.
+Proof. exact old_indices. Qed.
+Print Assumptions C19_prefix_indices_refuted.
+
+(* F3g (fixed 6814bca0) *)
+Theorem C19_prefix_iadd_empty_refuted :
+  gr (fst (old_iadd {| gr := []; fresh := 100%N |} HEAD [])) = [(HEAD, REST, NIL)].
+Proof. exact old_iadd_empty. Qed.
+Print Assumptions C19_prefix_iadd_empty_refuted.
+
+(* F3c (fixed 6f3b46c5): index() of an absent item on (h first 1) (h rest h)
+   exhausted every amount of fuel; the repaired index() raises *)
+Theorem C19_prefix_index_cyclic_refuted :
+  (forall fuel idx, old_index_f fuel loop_graph HEAD 12%N idx = RHang) /\
+  c_index loop_graph HEAD 12%N = RExc ValueError.
+Proof. split; [exact old_index_loops|vm_compute; reflexivity]. Qed.
+Print Assumptions C19_prefix_index_cyclic_refuted.
+
+(* non-vacuity: a trigger-free history over falsy members and duplicates with
+   negative indices, deletion of the head, the tail, a middle and the only
+   element, reads and deletes at len(c), += [] on the emptied collection *)
+Example C19_nonvacuous :
+  let c := {| c_init := [6; 5; 6; 7]%N; c_noise := [(1, 3, 30); (30, 4, 5)]%N;
+              c_ops := [ODel 0; OGet (-1); OSet (-3) 14%N; ODel (-1); ODel 2; OGet 2; ODel 0; ODel 0;
+                        OIadd []; OGet 0; OAppend 7%N; OIadd [6; 6]%N; ODel 1; OIndex 6%N;
+                        OClear; OIadd [14]%N; OContains 14%N; OIndex 1%N; OGet (-2)] |} in
+  wfb c = true /\ kf c = 0%N /\ spec_ok c (model_obs c) = true /\ length (model_obs c) = 19%nat.
+Proof. repeat split; vm_compute; reflexivity. Qed.
